@@ -3,6 +3,7 @@ import Ruint.Lemmas.Fmt
 import Ruint.Lemmas.Str
 import Ruint.Lemmas.GenRadixBE
 import Ruint.Lemmas.GenRadixLE
+import Ruint.Lemmas.StrTable
 
 /-!
 # C09 — radix conversion, parsing and formatting agree with positional notation
@@ -332,5 +333,14 @@ theorem gen_from_base_le_canon (bits base : ℕ) (digits : List ℕ) (hN : nlimb
     (hd : Ruint.AllLt digits) (hl : digits.length < 2 ^ 64) (f : ℕ) (hf : nlimbs bits + digits.length + 1 < f) (r : List ℕ)
     (h : Ruint.Gen.uint_from_base_le f bits (nlimbs bits) base digits = .ok r) : Ruint.Canon bits r :=
   Ruint.GenRadixLE.from_base_le_canon bits base digits hN hb hd hl f hf r h
+
+/-- the two `match c` tables of `from_str_radix` and its radix bounds, as extracted from `src/string.rs` on every run
+    (`Gen/StrTable.lean`), interpreted row by row, classify every character at every radix exactly as the model's `classify`
+    does — the function the parsing theorems above are about; `radixMax` is the model's bound 64. A changed, added, removed or
+    reordered arm (such as the base-64 rows `'g'..'z'` that were once missing) breaks this obligation for every input at once. -/
+theorem gen_classify_eq (radix : ℕ) (c : Char) :
+    Ruint.StrTable.classifyT Ruint.Gen.StrTable.low Ruint.Gen.StrTable.high Ruint.Gen.StrTable.lowMax radix c = classify radix c
+    ∧ Ruint.Gen.StrTable.radixMax = 64 :=
+  ⟨Ruint.StrTable.classify_eq radix c, Ruint.StrTable.radixMax_eq⟩
 
 end Ruint.C09
